@@ -18,9 +18,15 @@ def twin(c, name):
                       fields=c.fields, primary=c.primary)
 
 
-def grow_and_mutate(rng, name, cfg_like, h, n=2):
-    """updates on `name` (a map of the given configuration) that touch existing and new coverage pixels"""
+def grow_and_mutate(rng, name, cfg_like, h, n=2, inside=None, exports=()):
+    """updates on `name` (a map of the given configuration): first INSIDE the coverage pixels it already has
+    (`inside`: no growth, so storage that is secretly a view of another map's stays one — seeded change C09e —,
+    followed by the exports), then touching existing and new coverage pixels"""
     c = twin(cfg_like, name)
+    if inside:
+        for _ in range(rng.randint(1, 2)):
+            h.append(gen.upd_line(rng, c, focus=list(inside)))
+        h += ['state %s' % name] + list(exports)
     for _ in range(n):
         h.append(gen.upd_line(rng, c, focus=rng.sample(range(c.ncov), min(c.ncov, 3))))
 
@@ -35,8 +41,8 @@ def producing(rng, c, others):
     elif c.kind == 'rec':
         ch = rng.choice(['copy', 'single', 'single', 'single', 'scov', 'fracdet', 'deg', 'upg', 'pack', 'mask'])
     else:
-        ch = rng.choice(['copy', 'sop', 'mask', 'astype', 'pack', 'scov', 'fracdet', 'deg', 'degsame', 'degw', 'upg',
-                         'mop', 'moc', 'write'])
+        ch = rng.choice(['copy', 'sop', 'mask', 'astype', 'pack', 'scov', 'scov', 'fracdet', 'deg', 'degsame', 'degw',
+                         'upg', 'mop', 'moc', 'write'])
     like = c
     if ch == 'copy':
         ln = 'copy a r=res'
@@ -64,7 +70,8 @@ def producing(rng, c, others):
         ln = 'single a r=res field=%d copy=1' % f
         like = gen.MapCfg('res', 'plain', c.covord, c.spord, dtype=c.fields[f])
     elif ch == 'scov':
-        ln = 'scov a r=res k=%d' % rng.randrange(c.ncov)
+        # (mostly a coverage pixel the map holds — `focus` of the caller —, the FIRST one allocated included)
+        ln = 'scov a r=res k=%d' % (rng.choice(others) if others and rng.random() < 0.85 else rng.randrange(c.ncov))
     elif ch == 'fracdet':
         o = rng.randint(c.covord, c.spord)
         ln = 'fracdet a r=res ord=%d' % o
@@ -112,7 +119,10 @@ def histories(rng, tier):
             h.append(gen.upd_line(rng, c, focus=focus))
         for _ in range(rng.randint(0, 3)):
             h.append(gen.upd_line(rng, b, focus=rng.sample(range(c.ncov), min(c.ncov, 3))))
-        ch, ln, like, args = producing(rng, c, None)
+        # the coverage pixel allocated FIRST (storage block 1) goes first in the list handed to `producing`
+        first = [int(t[4:].split(',')[0]) // c.nfine for l0 in h if l0.startswith('upd a ') for t in l0.split()
+                 if t.startswith('pix=') and t != 'pix=_'][:1]
+        ch, ln, like, args = producing(rng, c, first + first + list(focus))
         if 'k' in args:
             k = gen.MapCfg('k', 'plain', c.covord, c.spord, dtype=rng.choice(['i2', 'u1', 'i8']), sentinel='0')
             h.append(k.line())
@@ -125,11 +135,16 @@ def histories(rng, tier):
         if ch not in ('moc', 'write'):
             h += ['state res', 'info res']
             # phase 1: mutate / grow the result, re-read the arguments
+            inside = None
+            if ch == 'scov':
+                inside = [int(ln.split('k=')[1])]
+            elif like is not None and like.covord == c.covord and ch not in ('fracdet',):
+                inside = focus
             if like is not None:
-                grow_and_mutate(rng, 'res', like, h)
+                grow_and_mutate(rng, 'res', like, h, inside=inside, exports=exports)
                 h += ['state res'] + exports
             # phase 2: mutate / grow the arguments, re-read the result
-            grow_and_mutate(rng, 'a', c, h)
+            grow_and_mutate(rng, 'a', c, h, inside=focus, exports=['state res', 'vals res'])
             if 'b' in args:
                 grow_and_mutate(rng, 'b', c, h, n=1)
             h += exports + ['state res', 'vals res', 'valid res']
